@@ -40,7 +40,7 @@ def _eff_trans(fx, info, src):
     ts = [t for t in fx.trans if t.fsm == info.id and t.src == src]
     out = []
     for i, t in enumerate(ts):
-        g = B.guard_formula(t.guards)
+        g = t.eff()
         for u in ts[i + 1:]:
             g = B.And(g, B.Not(B.guard_formula(u.guards)))
         out.append((t, g))
@@ -82,7 +82,7 @@ def run(ctx):
         ok = len(ex) == 1 and ex[0].dst == "IDLE"
         term = None
         if ok:
-            G = B.guard_formula(ex[0].guards)
+            G = ex[0].eff()
             ats = [a for a in B.atoms(G) if a.startswith("count == ")]
             ok = len(ats) == 1 and B.entails(G, B.A(tick))
             if ok:
@@ -96,7 +96,7 @@ def run(ctx):
         for reg in ("count", "data"):
             for a in fx.find(domain="sync", target=reg):
                 if a.state and a.state[1] == "RUN":
-                    ok = B.entails(B.guard_formula(a.guards), B.A(tick))
+                    ok = B.entails(a.eff(), B.A(tick))
                     ctx.ob("Q2", UART, cls, f"{reg} moves only on the baud tick", ok, "" if ok else f"{reg} <= {a.v} under {a.gtext()}", a.line)
         en = fx.find(domain="comb", target="self.clk_phase_accum.enable")
         ok = len(en) == 1 and en[0].state is not None and en[0].state[1] == "RUN" and en[0].v == "1"
@@ -113,20 +113,20 @@ def run(ctx):
     ctx.ob("Q2", UART, "RS232PHYTX", "line: idle level, start bit on valid, then data[0] (LSB first)", ok, "" if ok else f"{sorted(by)}")
     if ("IDLE", "RS232_START") in by:
         a = by[("IDLE", "RS232_START")]
-        ok = B.equivalent(B.guard_formula(a.guards), B.A("self.sink.valid")) and tx.assigns.index(a) > tx.assigns.index(by[("IDLE", "RS232_IDLE")])
+        ok = B.equivalent(a.eff(), B.A("self.sink.valid")) and tx.assigns.index(a) > tx.assigns.index(by[("IDLE", "RS232_IDLE")])
         ctx.ob("Q2", UART, "RS232PHYTX", "start bit overrides the idle level when a byte is offered", ok, "" if ok else f"{a.gtext()} / order")
     ld = [a for a in tx.find(domain="sync", target="data") if a.state and a.state[1] == "IDLE"]
-    ok = len(ld) == 1 and ld[0].v == "self.sink.data" and B.equivalent(B.guard_formula(ld[0].guards), B.A("self.sink.valid"))
+    ok = len(ld) == 1 and ld[0].v == "self.sink.data" and B.equivalent(ld[0].eff(), B.A("self.sink.valid"))
     ctx.ob("Q2", UART, "RS232PHYTX", "byte loaded when offered in IDLE", ok, "" if ok else f"{[(a.v, a.gtext()) for a in ld]}")
     rd = [a for a in tx.find(domain="comb", target="self.sink.ready")]
     txe = [t for t in tx.trans if t.src == "RUN"]
-    ok = len(rd) == 1 and rd[0].state[1] == "RUN" and len(txe) == 1 and B.equivalent(B.guard_formula(rd[0].guards), B.guard_formula(txe[0].guards))
+    ok = len(rd) == 1 and rd[0].state[1] == "RUN" and len(txe) == 1 and B.equivalent(rd[0].eff(), txe[0].eff())
     ctx.ob("Q2", UART, "RS232PHYTX", "byte consumed exactly at the end of its frame", ok, "" if ok else f"{[(a.state, a.gtext()) for a in rd]}")
     sh_rx = [a for a in rx.find(domain="sync", target="data") if a.state and a.state[1] == "RUN"]
     ok = len(sh_rx) == 1 and sh_rx[0].v == "Cat(data[1:], rx)"
     ctx.ob("Q2", UART, "RS232PHYRX", "RX shifts right (LSB arrives first), same direction as TX", ok, "" if ok else f"{[a.v for a in sh_rx]}")
     st = [t for t in rx.trans if t.src == "IDLE"]
-    ok = len(st) == 1 and st[0].dst == "RUN" and B.equivalent(B.guard_formula(st[0].guards), B.from_expr("(rx == RS232_START) & (rx_d == RS232_IDLE)"))
+    ok = len(st) == 1 and st[0].dst == "RUN" and B.equivalent(st[0].eff(), B.from_expr("(rx == RS232_START) & (rx_d == RS232_IDLE)"))
     ctx.ob("Q2", UART, "RS232PHYRX", "start = falling edge: rx == START & rx_d == IDLE", ok, "" if ok else f"{[t.gtext() for t in st]}")
     rxd = rx.find(domain="sync", target="rx_d")
     ok = len(rxd) == 1 and rxd[0].v == "rx" and not rxd[0].guards
@@ -136,11 +136,11 @@ def run(ctx):
     ctx.ob("Q2", UART, "RS232PHYRX", "pad synchronised before use", ok, "" if ok else f"{mr}")
     vd = rx.find(domain="comb", target="self.source.valid")
     rxe = [t for t in rx.trans if t.src == "RUN"]
-    ok = len(vd) == 1 and vd[0].v == "rx == RS232_STOP" and len(rxe) == 1 and B.equivalent(B.guard_formula(vd[0].guards), B.guard_formula(rxe[0].guards))
+    ok = len(vd) == 1 and vd[0].v == "rx == RS232_STOP" and len(rxe) == 1 and B.equivalent(vd[0].eff(), rxe[0].eff())
     ctx.ob("Q2", UART, "RS232PHYRX", "byte delivered only with a valid stop bit at the end of the frame", ok, "" if ok else f"{[(a.v, a.gtext()) for a in vd]}")
     acc = fx_of(ctx, UART, "RS232ClkPhaseAccum")
     aa = acc.find(domain="sync")
-    ok = len(aa) == 2 and all(a.t == "Cat(phase, self.tick)" for a in aa) and any(a.v == "phase + tuning_word" and B.equivalent(B.guard_formula(a.guards), B.A("self.enable")) for a in aa)
+    ok = len(aa) == 2 and all(a.t == "Cat(phase, self.tick)" for a in aa) and any(a.v == "phase + tuning_word" and B.equivalent(a.eff(), B.A("self.enable")) for a in aa)
     ctx.ob("Q2", UART, "RS232ClkPhaseAccum", "tick = carry of phase + tuning_word while enabled, reload otherwise", ok, "" if ok else f"{[(a.t, a.v, a.gtext()) for a in aa]}")
     rl = [a for a in aa if a.v != "phase + tuning_word"]
     ok = len(rl) == 1 and "2 ** 31" in rl[0].v and "mode == 'tx'" in rl[0].v
@@ -149,10 +149,10 @@ def run(ctx):
     # ================================================================ Q3 SPI master
     sp = fx_of(ctx, SPIM, "SPIMaster")
     cn = [a for a in sp.find(domain="sync", target="count") if a.v == "count + 1"]
-    ok = len(cn) == 1 and cn[0].state[1] == "RUN" and B.equivalent(B.guard_formula(cn[0].guards), B.A("clk_fall"))
+    ok = len(cn) == 1 and cn[0].state[1] == "RUN" and B.equivalent(cn[0].eff(), B.A("clk_fall"))
     ctx.ob("Q3", SPIM, "SPIMaster", "bit counter steps on clk_fall in RUN", ok, "" if ok else f"{[(a.state, a.gtext()) for a in cn]}")
     ex = [t for t in sp.trans if t.src == "RUN"]
-    ok = len(ex) == 1 and ex[0].dst == "STOP" and B.equivalent(B.guard_formula(ex[0].guards), B.from_expr("clk_fall & (count == self.length - 1)"))
+    ok = len(ex) == 1 and ex[0].dst == "STOP" and B.equivalent(ex[0].eff(), B.from_expr("clk_fall & (count == self.length - 1)"))
     ctx.ob("Q3", SPIM, "SPIMaster", "RUN ends after `length` clock pulses", ok, "" if ok else f"{[t.gtext() for t in ex]}")
     cz = [a for a in sp.find(domain="sync", target="count") if a.v == "0"]
     ok = len(cz) == 1 and cz[0].state[1] == "START"
@@ -167,10 +167,17 @@ def run(ctx):
     ok = len(ms) == 1 and B.entails(q.gformula(sp, ms[0], inline=False), B.A("clk_fall"))
     ctx.ob("Q3", SPIM, "SPIMaster", "MOSI bit select counts down (MSB first) on clk_fall", ok, "" if ok else f"{[a.gtext() for a in ms]}")
     ml = [a for a in sp.find(domain="sync", target="mosi_sel") if a.v != "mosi_sel - 1"]
-    ok = len(ml) == 1 and "self.length - 1" in ml[0].v and "data_width - 1" in ml[0].v and B.equivalent(B.guard_formula(ml[0].guards), B.A("mosi_latch"))
+    ok = len(ml) == 1 and "self.length - 1" in ml[0].v and "data_width - 1" in ml[0].v and B.equivalent(ml[0].eff(), B.A("mosi_latch"))
     ctx.ob("Q3", SPIM, "SPIMaster", "MOSI starts at the most significant bit of the transfer", ok, "" if ok else f"{[a.v for a in ml]}")
+    # the load wins over the free-running countdown in whatever divider phase the start request falls (effective guards)
+    for a in ml + [x for x in sp.find(domain="sync", target="mosi_data")]:
+        eff = q.gformula(sp, a, inline=False)
+        ok = B.equivalent(eff, B.A("mosi_latch"))
+        ctx.ob("Q3", SPIM, "SPIMaster", f"{a.t} load on mosi_latch is not overridden", ok,
+               "" if ok else f"`{a.t} <= {short(a.v, 40)}` takes effect only under {B.show(eff)}: a start request that coincides with "
+                             f"another strobe leaves a stale bit pointer / word and the frame is shifted out wrong", a.line)
     mi = sp.find(domain="sync", target="miso_data")
-    ok = len(mi) == 2 and all(B.entails(B.guard_formula(a.guards), B.A("clk_rise")) for a in mi) and \
+    ok = len(mi) == 2 and all(B.entails(a.eff(), B.A("clk_rise")) for a in mi) and \
         {a.v for a in mi} == {"Cat(pads.mosi, miso_data)", "Cat(pads.miso, miso_data)"}
     ctx.ob("Q3", SPIM, "SPIMaster", "MISO captured on the rising edge, shifting left (MSB first)", ok, "" if ok else f"{[(a.v, a.gtext()) for a in mi]}")
     cs = [a for a in sp.find(domain="sync") if a.t.startswith("pads.cs_n[")]
@@ -183,7 +190,7 @@ def run(ctx):
     ok = {a.state[1] for a in xe if a.state} == {"START", "RUN", "STOP"}
     ctx.ob("Q3", SPIM, "SPIMaster", "xfer_enable frames START..STOP", ok, "" if ok else f"{[(a.state, a.gtext()) for a in xe]}")
     lt = sp.find(domain="comb", target="miso_latch")
-    ok = len(lt) == 1 and lt[0].state[1] == "STOP" and B.equivalent(B.guard_formula(lt[0].guards), B.A("clk_rise"))
+    ok = len(lt) == 1 and lt[0].state[1] == "STOP" and B.equivalent(lt[0].eff(), B.A("clk_rise"))
     ctx.ob("Q3", SPIM, "SPIMaster", "received word latched at the end of STOP", ok, "" if ok else f"{[(a.state, a.gtext()) for a in lt]}")
     edges = {a.t: a.v for a in sp.find(domain="comb") if a.t in ("clk_rise", "clk_fall")}
     ok = edges == {"clk_rise": "clk_divider == self.clk_divider[1:] - 1", "clk_fall": "clk_divider == self.clk_divider - 1"}
@@ -194,7 +201,7 @@ def run(ctx):
     ok = ed == {"clk_rise": "clk & ~clk_d", "clk_fall": "~clk & clk_d"}
     ctx.ob("Q3", SPIS, "SPISlave", "edge detectors on the synchronised clock", ok, "" if ok else f"{ed}")
     mosi = ss.find(domain="sync", target="self.mosi")
-    ok = len(mosi) == 1 and mosi[0].v == "Cat(mosi, self.mosi[:-1])" and B.equivalent(B.guard_formula(mosi[0].guards), B.from_expr("cs & clk_rise"))
+    ok = len(mosi) == 1 and mosi[0].v == "Cat(mosi, self.mosi[:-1])" and B.equivalent(mosi[0].eff(), B.from_expr("cs & clk_rise"))
     ctx.ob("Q3", SPIS, "SPISlave", "MOSI sampled on the rising edge while selected", ok, "" if ok else f"{[(a.v, a.gtext()) for a in mosi]}")
     mis = [a for a in ss.find(domain="sync", target="miso_data") if a.v != "self.miso"]
     ok = len(mis) == 1 and B.entails(q.gformula(ss, mis[0], inline=False), B.from_expr("cs & clk_fall"))
@@ -240,7 +247,7 @@ def run(ctx):
             okk = B.equivalent(G, B.from_expr(want))
             ctx.ob("Q4", TIMER, "Timer", f"value <= {v} iff {want}", okk, "" if okk else f"under {B.show(G)}", by[v].line)
     lt = tm.find(domain="sync", target="self._value.status")
-    ok = len(lt) == 1 and lt[0].v == "value" and B.equivalent(B.guard_formula(lt[0].guards), B.A("self._update_value.re"))
+    ok = len(lt) == 1 and lt[0].v == "value" and B.equivalent(lt[0].eff(), B.A("self._update_value.re"))
     ctx.ob("Q4", TIMER, "Timer", "value latched on update_value write", ok, "" if ok else f"{[(a.v, a.gtext()) for a in lt]}")
     wd = fx_of(ctx, WDT, "Watchdog")
     fail_closed(ctx, wd, "Watchdog")
@@ -263,5 +270,5 @@ def run(ctx):
     ok = len(en) == 1 and B.equivalent(B.from_expr(en[0].value), B.from_expr("self._control.fields.enable & ~self.halted"))
     ctx.ob("Q4", WDT, "Watchdog", "enable = control.enable & ~halted", ok, "" if ok else f"{[a.v for a in en]}")
     tr = wd.find(domain="comb", target="self.ev.wdt.trigger")
-    ok = len(tr) == 1 and tr[0].v == "self.execute" and B.equivalent(B.guard_formula(tr[0].guards), B.A("self.enable"))
+    ok = len(tr) == 1 and tr[0].v == "self.execute" and B.equivalent(tr[0].eff(), B.A("self.enable"))
     ctx.ob("Q4", WDT, "Watchdog", "event raised from execute while enabled", ok, "" if ok else f"{[(a.v, a.gtext()) for a in tr]}")
